@@ -265,39 +265,42 @@ Proof. intros q mode cs H. exact (loop_no_panic q mode cs H []). Qed.
     every history and every next desired state (all in ONE schema), the schema-scoped plan
     requested with a qualifier is produced -- CheckChangesScope has no reason to see two schemas.
 
-    It is FALSE of the faithful model (Qual/Replay.v): Planner.plan renames a shallow copy of
-    the replayed schema object, the replayed tables keep pointing to the original, which
-    carries the dev database's name; a DropTable next to an Add/ModifyTable names two schemas.
-    Witness: dev schema "dev", desired schema "app", history [t1, t2], next state [t2, t3]
-    (reproduced on the Go code by stage [replay], class replay-plan-rejected-two-schemas,
-    recorded finding): *)
-Theorem C16_replay_refuted :
-  exists modified dev user cur des,
-  dev <> [] /\ user <> [] /\
-  Planner_plan modified false (Some []) 0 dev user [] cur des = PRejected (EMulti 2).
-Proof.
-  exists never, n_dev, n_app, [t1; t2], [t2; t3].
-  split; [discriminate|]. split; [discriminate|]. exact (proj1 replay_witness).
-Qed.
-
-(** What does hold.  (i) the code's exact condition: the plan is rejected iff the two names
-    differ, a table is dropped and a table is added or modified -- for every table-diff
-    function [modified], qualifier, mode, object changes and table lists; *)
-Theorem C16_replay_code :
-  forall modified q mode dev user objs cur des,
-  dev <> [] -> user <> [] ->
-  let cs := schema_diff modified dev user objs cur des in
-  ((exists r, Planner_plan modified false (Some q) mode dev user objs cur des = PRejected r) <->
-   (dev <> user /\ existsb is_drop cs = true /\ existsb is_addmod cs = true)).
-Proof. exact planner_rejects_iff. Qed.
-
-(** (ii) with the replayed schema object itself renamed (notes/fixes/C16-planner-replay-rename.diff)
-    the full statement holds. *)
+    It holds of the model (Qual/Replay.v) since fix C16-planner-replay-rename (/repo: "fix:
+    Planner.plan renames the replayed schema itself ..."): the replayed schema object is renamed
+    in place, its tables point to it, every table change names the desired schema.  For every
+    table-diff function [modified], qualifier, mode, object changes and table lists: *)
 Theorem C16_replay_repaired :
   forall modified q mode dev user objs cur des,
   user <> [] ->
-  forall r, Planner_plan modified true (Some q) mode dev user objs cur des <> PRejected r.
-Proof. exact planner_deep_never_rejects. Qed.
+  forall r, Planner_plan modified (Some q) mode dev user objs cur des <> PRejected r.
+Proof. exact planner_never_rejects. Qed.
+
+(** exactly: no plan when the diff is empty, a plan otherwise; and the name the dev database's
+    schema carries plays no role at all (formerly C16_replay_code, the rejection condition). *)
+Theorem C16_replay_code :
+  forall modified q mode dev user objs cur des,
+  user <> [] ->
+  Planner_plan modified (Some q) mode dev user objs cur des =
+    match schema_diff modified user user objs cur des with [] => PNoPlan | _ => PPlanned end.
+Proof. exact planner_plans_iff. Qed.
+
+Theorem C16_replay_dev_name_irrelevant :
+  forall modified q mode dev dev' user objs cur des,
+  Planner_plan modified q mode dev user objs cur des = Planner_plan modified q mode dev' user objs cur des.
+Proof. exact planner_dev_name_irrelevant. Qed.
+
+(** For the record, the code BEFORE the fix ([Planner_plan_before_fix]: a shallow copy of the
+    replayed schema was renamed, the replayed tables kept the dev database's name) rejected a
+    single-schema evolution exactly when the two names differed, a table was dropped and a table
+    was added or modified (formerly C16_replay_refuted; witness dev/app, [t1,t2] -> [t2,t3] in
+    ex_replay).  Reverting the fix makes stage [replay] report exactly these inputs. *)
+Theorem C16_replay_before_fix :
+  forall modified q mode dev user objs cur des,
+  dev <> [] -> user <> [] ->
+  let cs := schema_diff modified dev user objs cur des in
+  ((exists r, Planner_plan_before_fix modified (Some q) mode dev user objs cur des = PRejected r) <->
+   (dev <> user /\ existsb is_drop cs = true /\ existsb is_addmod cs = true)).
+Proof. exact before_fix_rejects_iff. Qed.
 
 Print Assumptions C16_builder.
 Print Assumptions C16_builder_chain.
@@ -313,9 +316,10 @@ Print Assumptions C16_one_identifier_sequence.
 Print Assumptions C16_quoted_chain_reads_back.
 Print Assumptions C16_pg_same_namespace_refuted.
 Print Assumptions C16_pg_same_namespace_except.
-Print Assumptions C16_replay_refuted.
-Print Assumptions C16_replay_code.
 Print Assumptions C16_replay_repaired.
+Print Assumptions C16_replay_code.
+Print Assumptions C16_replay_dev_name_irrelevant.
+Print Assumptions C16_replay_before_fix.
 Print Assumptions C16_skeleton_partial.
 Print Assumptions C16_skeleton_no_bare_reference.
 Print Assumptions C16_scope_sound.
@@ -453,15 +457,14 @@ Example ex_pg_same_namespace :
   typeIdent strconvQuote (Some w_bs) None w_t = [34; 97; 92; 92; 98; 34; 46; 34; 116; 34].
 Proof. repeat split; vm_compute; reflexivity. Qed.
 
-(* C16_replay_*: the witness is rejected by the code as it is, planned by the repaired code, and
-   planned by the code as it is when the dev schema carries the desired name; a lone DROP TABLE
-   is planned (right-hand side of C16_replay_code false) *)
+(* C16_replay_*: the former witness is planned; the code before the fix rejected it, and planned
+   it when the dev schema carried the desired name; a lone DROP TABLE; an unchanged state *)
 Example ex_replay :
-  Planner_plan never false (Some []) 0 n_dev n_app [] [t1; t2] [t2; t3] = PRejected (EMulti 2) /\
-  Planner_plan never true (Some []) 0 n_dev n_app [] [t1; t2] [t2; t3] = PPlanned /\
-  Planner_plan never false (Some []) 0 n_app n_app [] [t1; t2] [t2; t3] = PPlanned /\
-  Planner_plan never false (Some []) 0 n_dev n_app [] [t1; t2] [t2] = PPlanned /\
-  Planner_plan never false (Some []) 0 n_dev n_app [] [t1; t2] [t1; t2] = PNoPlan.
+  Planner_plan never (Some []) 0 n_dev n_app [] [t1; t2] [t2; t3] = PPlanned /\
+  Planner_plan_before_fix never (Some []) 0 n_dev n_app [] [t1; t2] [t2; t3] = PRejected (EMulti 2) /\
+  Planner_plan_before_fix never (Some []) 0 n_app n_app [] [t1; t2] [t2; t3] = PPlanned /\
+  Planner_plan never (Some []) 0 n_dev n_app [] [t1; t2] [t2] = PPlanned /\
+  Planner_plan never (Some []) 0 n_dev n_app [] [t1; t2] [t1; t2] = PNoPlan.
 Proof. repeat split; vm_compute; reflexivity. Qed.
 
 (* C16_one_identifier_sequence: ALTER TABLE <t> ( <t.c> ) , -- the chain of the first call is
